@@ -37,3 +37,26 @@ impl ParallelPrecompileState<'_> {
         pre.fault matches Some(f) ==> r == Err::<T, ParallelPrecompileError>(f) && post.internals@ == pre.internals@ && post.fault == pre.fault
     }
 }
+
+// ---- alloy precompile adapter (to_alloy) ----
+#[derive(PartialEq, Eq, Structural, Clone, Copy)] pub struct PrecompileId(pub u64);
+impl PrecompileId { pub fn clone(&self) -> (r: Self) ensures r == *self { *self } }
+#[derive(PartialEq, Eq, Structural, Clone, Copy)] pub struct PrecompileOutput { pub gas_used: u64, pub halted: Option<PrecompileHalt>, pub reservoir: u64 }
+impl PrecompileOutput { pub fn halt(reason: PrecompileHalt, reservoir: u64) -> (r: Self) ensures r.halted == Some(reason), r.reservoir == reservoir { PrecompileOutput { gas_used: 0, halted: Some(reason), reservoir } } }
+pub type PrecompileResult = Result<PrecompileOutput, PrecompileError>;
+pub struct PrecompileInput<'a> { pub data: &'a [u8], pub gas: u64, pub reservoir: u64, pub caller: Address, pub value: U256, pub target_address: Address, pub is_static: bool, pub bytecode_address: Address, pub internals: EvmInternals<'a> }
+/// a restricted precompile implementation (trait object in the real code): may use the facade arbitrarily
+#[verifier::external_body] pub struct DynParallelPrecompile { p: u8 }
+impl DynParallelPrecompile {
+    pub uninterp spec fn id(&self) -> PrecompileId;
+    #[verifier::external_body] pub fn precompile_id(&self) -> (r: &PrecompileId) ensures *r == self.id() { unimplemented!() }
+    #[verifier::external_body] pub fn clone(&self) -> (r: Self) ensures r == *self { unimplemented!() }
+    #[verifier::external_body] pub fn call(&self, input: &mut ParallelPrecompileInput<'_>) -> (r: ParallelPrecompileResult) { unimplemented!() }
+}
+#[verifier::external_body] pub struct DynPrecompile { p: u8 }
+impl DynPrecompile {
+    pub uninterp spec fn id(&self) -> PrecompileId;
+    /// alloy: a stateful (uncached) precompile from a closure
+    #[verifier::external_body] pub fn new_stateful<F: for<'a> Fn(PrecompileInput<'a>) -> PrecompileResult>(id: PrecompileId, f: F) -> (r: Self)
+        ensures r.id() == id { unimplemented!() }
+}
